@@ -415,3 +415,112 @@ def file_generator_replays_in_order():
     for sizes in ((2, 1, 3), (1,)):       # every file holds at least one event (an event-less file has no tables to read)
         for chunk in (1, 2, 3, 5):
             _replay(sizes, chunk)
+
+
+# ---------------------------------------------------------------------------
+# continuing a file in a later append-mode session
+# ---------------------------------------------------------------------------
+
+W = "pyrex.io.HDF5Writer"
+
+
+class _DS:
+    def __init__(self, shape):
+        self.shape = list(shape)
+        self.attrs = {"keys": []}
+        self.writes = []
+
+    def resize(self, n, axis=0):
+        self.shape[axis] = n
+
+    def __setitem__(self, key, val):
+        self.writes.append((key, val))
+
+    def __len__(self):
+        return self.shape[0]
+
+
+class _Group:
+    def __init__(self, n_str, n_float, thrown=None):
+        self.items = {"str": _DS([n_str, 0]), "float": _DS([n_float, 0])}
+        self.attrs = {} if thrown is None else {"total_thrown": thrown}
+
+    def __getitem__(self, k):
+        return self.items[k]
+
+    def __contains__(self, k):
+        return k in self.items
+
+
+class _H5:
+    def __init__(self, nodes, attrs):
+        self.nodes = nodes
+        self.attrs = attrs
+
+    def __getitem__(self, k):
+        if k in self.nodes:
+            return self.nodes[k]
+        parent, _, child = k.rpartition("/")
+        return self.nodes[parent][child]
+
+    def __contains__(self, k):
+        if k in self.nodes:
+            return True
+        parent, _, child = k.rpartition("/")
+        return parent in self.nodes and hasattr(self.nodes[parent], "items") and child in self.nodes[parent]
+
+
+class _Ev:
+    def __init__(self, n):
+        self.n = n
+        self._metadata = "particle-metadata"
+
+    def __len__(self):
+        return self.n
+
+
+@harness(clause="append-sessions")
+def append_session_continues_where_the_file_ends():
+    """a writer opened in append mode on an existing file takes every row counter from the file (tables that do not
+    exist start at 0) and keeps NO other state from the earlier session: the next event's particle rows go after the
+    existing ones and the stored thrown-count keeps accumulating"""
+    n_ev = integer("events_in_file", 0, 50)
+    n_wave = integer("waveform_rows", 0, 200)
+    n_pstr = integer("particle_str_rows", 0, 200)
+    n_pflt = integer("particle_float_rows", 0, 200)
+    thrown = integer("thrown_so_far", 0, 10 ** 6)
+    nodes = {"/file_metadata": _Group(1, 1),
+             "/event_indices": _DS([n_ev, 2, 2]),
+             "/data/waveforms": _DS([n_wave, 2, 2]),
+             "/monte_carlo_data/particles": _Group(n_pstr, n_pflt, thrown)}
+    f = _H5(nodes, {"version_major": 1, "version_minor": 1})
+    opened = []
+
+    def h5file(name, mode="r"):
+        opened.append((name, mode))
+        return f
+    use_lib_stub("h5py.File", h5file)
+    for mode in ("a", "r+"):
+        w = obj(W, filename="out.h5", _mode=mode, _data_locs=resolve("pyrex.io.HDF5Base")._dataset_locations(obj(W, _file_version_major=1, _file_version_minor=1)))
+        w.open()
+        prove(mode + ":opened-in-the-requested-mode", opened[-1] == ("out.h5", mode))
+        c = w._counters
+        prove(mode + ":event-counter-from-the-index-table", c["indices"] == n_ev)
+        prove(mode + ":waveform-counter-from-the-file", c["waveforms"] == n_wave)
+        prove(mode + ":particle-counter-is-the-longer-metadata-table", c["particles_meta"] == ite(n_pstr >= n_pflt, n_pstr, n_pflt))
+        prove(mode + ":absent-tables-start-at-zero", And(c["triggers"] == 0, c["rays_meta"] == 0, c["mc_triggers"] == 0, c["noise"] == 0))
+        prove(mode + ":no-counter-for-per-file-tables", And("file_meta" not in c, "antennas" not in c, "antennas_meta" not in c))
+    # the session's first event
+    n_p = integer("n_particles", 1, 20)
+    k = integer("throw_count", 1, 1000)
+    old = w._counters["particles_meta"]
+    calls = []
+    use_stub(W + "._write_indices", lambda self, name, start, length=1, **kw: calls.append(("idx", name, start, length)))
+    use_stub(W + "._write_metadata", lambda self, name, metadata, index=None: calls.append(("meta", name, index)))
+    use_stub(W + "._create_metadataset", lambda self, name, shape=None, maxshape=None: self._file[name])
+    w._write_particles(_Ev(n_p), k)
+    g = nodes["/monte_carlo_data/particles"]
+    prove("particle-rows-appended-after-the-existing-ones",
+          And(g["str"].shape[0] == old + n_p, g["float"].shape[0] == old + n_p, w._counters["particles_meta"] == old + n_p,
+              ("idx", "/monte_carlo_data/particles", old, n_p) in calls, ("meta", "/monte_carlo_data/particles", old) in calls))
+    prove("thrown-count-keeps-accumulating-across-sessions", g.attrs["total_thrown"] == thrown + k)
